@@ -360,8 +360,34 @@ func (e *c18Env) close() {
 	for _, r := range e.removers {
 		r()
 	}
+	// Do not stop a server that is still replaying its Raft log: Stop() during
+	// the replay makes the FSM panic in finishedRecovery ("failed to subscribe
+	// to NATS: connection closed") - a shutdown defect outside this property
+	// that would only kill the harness process.
 	if e.c != nil {
-		e.c.Cleanup()
+		var target uint64
+		for _, n := range e.c.Running() {
+			if srv := n.Server(); srv != nil && srv.getRaft() != nil {
+				if ci := srv.getRaft().getCommitIndex(); ci > target {
+					target = ci
+				}
+			}
+		}
+		vfWait(15*time.Second, func() bool {
+			for _, n := range e.c.Running() {
+				if srv := n.Server(); srv != nil && srv.getRaft() != nil && srv.getRaft().AppliedIndex() < target {
+					return false
+				}
+			}
+			return true
+		})
+	}
+	if e.c != nil {
+		// Stop only; the data directory (under VERIF_WORK) is removed by the
+		// driver after the process has ended.  Removing it here can make a
+		// partition goroutine that outlived Server.Stop() panic in
+		// checkpointHWLoop ("cannot create temp file") and kill the harness.
+		e.c.Stop()
 	}
 }
 
